@@ -68,6 +68,9 @@ pub use rounding::{
 mod parser;
 mod powers_of_ten;
 mod rounding;
+#[cfg(fpdec_verif)]
+#[doc(hidden)]
+pub mod verif_hooks;
 
 /// The maximum number of fractional decimal digits supported by `Decimal`.
 pub const MAX_N_FRAC_DIGITS: u8 = 18;
